@@ -28,7 +28,7 @@ OPS = ['create', 'create_key_pair', 'register', 'get', 'get_wrapped', 'get_attri
 def pick_uid(rng, objs, kinds=None, p_missing=0.08, p_none=0.04, p_any=0.25):
     x = rng.random()
     if x < p_missing:
-        return rng.choice(('99999', 'no-such-id', '0', '-1', '1e3', ' 1', 'n' * 249, 'q' * 300, 'long-' * 400))
+        return rng.choice(('99999', 'no-such-id', '0', '-1', '1e3', ' 1', 'n' * 249, 'q' * 300, 'long-' * 400, 'id-' + rig.UTF8_MARKER))
     if x < p_missing + p_none:
         return None
     pool = objs
@@ -51,7 +51,9 @@ def rand_text(rng):
 def attr_value_for(rng, name):
     """A well-typed value for attribute `name` (AttributeType), as accepted by the factory."""
     if name == A.NAME:
-        return name_value('nm-%d' % rng.randrange(50), rng.choice(list(E.NameType)))
+        # (one name in forty holds the marker that rig.encode_request turns into text outside ASCII)
+        return name_value(('nm-%d' % rng.randrange(50)) if rng.random() > 0.025 else 'nm-' + rig.UTF8_MARKER,
+                          rng.choice(list(E.NameType)))
     if name == A.OBJECT_GROUP:
         return 'g-%d' % rng.randrange(4)
     if name == A.APPLICATION_SPECIFIC_INFORMATION:
